@@ -54,7 +54,7 @@ def replay_cmd(P, path):
             hdr[k.strip()] = v.strip()
     entry = hdr.get('entry')
     args = json.loads(hdr.get('args', '[]'))
-    exe = build.build_native(P.SOURCES, extra=getattr(P, 'FLAGS', []) + getattr(P, 'NATIVE_FLAGS', []))
+    exe = build.build_native(P.SOURCES, extra=getattr(P, 'FLAGS', []) + getattr(P, 'NATIVE_FLAGS', []), runtime_flags=list(getattr(P, 'RUNTIME_FLAGS', [])), link_flags=list(getattr(P, 'NATIVE_LINK_FLAGS', [])))
     rc, chks, out = driver.native_replay(exe, dict(entry=entry, args=args), path)
     print(out)
     bad = [k for k, v in chks.items() if not v[0]]
@@ -77,7 +77,7 @@ def run_check(P, tier, seed, a):
     t_b0 = time.time()
     with ThreadPoolExecutor(2) as ex:
         f_ir = ex.submit(build.build_ir, P.SOURCES, flags + list(getattr(P, 'IR_FLAGS', [])))
-        f_nat = ex.submit(build.build_native, P.SOURCES, flags + list(getattr(P, 'NATIVE_FLAGS', [])))
+        f_nat = ex.submit(build.build_native, P.SOURCES, flags + list(getattr(P, 'NATIVE_FLAGS', [])), 16, False, None, list(getattr(P, 'RUNTIME_FLAGS', [])), list(getattr(P, 'NATIVE_LINK_FLAGS', [])))
         ll, files = f_ir.result()
         exe = f_nat.result()
     t_build = time.time() - t_b0
